@@ -3,6 +3,7 @@ module verif/harness
 go 1.21
 
 require (
+	github.com/RoaringBitmap/roaring v0.9.4
 	github.com/blevesearch/segment v0.9.0
 	github.com/blugelabs/bluge v0.0.0
 	github.com/blugelabs/bluge_segment_api v0.2.0
@@ -10,7 +11,6 @@ require (
 )
 
 require (
-	github.com/RoaringBitmap/roaring v0.9.4 // indirect
 	github.com/axiomhq/hyperloglog v0.0.0-20191112132149-a4c4c47bc57f // indirect
 	github.com/bits-and-blooms/bitset v1.2.0 // indirect
 	github.com/blevesearch/go-porterstemmer v1.0.3 // indirect
